@@ -699,3 +699,80 @@ func (f *File) ReadDir(n int) ([]fs.DirEntry, error) {
 	}
 	return out, nil
 }
+
+// ---- filepath.Glob seam ---------------------------------------------------------
+
+// Glob replaces filepath.Glob: the standard algorithm (pattern syntax and errors of
+// filepath.Match, directories expanded recursively, I/O errors ignored) over the simulated disk.
+func Glob(pattern string) ([]string, error) {
+	if CurFS == nil {
+		return filepath.Glob(pattern)
+	}
+	Yield(SiteFS)
+	return globDepth(pattern, 0)
+}
+
+func globHasMeta(path string) bool { return strings.ContainsAny(path, `*?[\`) }
+
+func globDepth(pattern string, depth int) ([]string, error) {
+	if depth > 10000 {
+		return nil, filepath.ErrBadPattern
+	}
+	// the pattern must be well formed even if nothing is listed
+	if _, err := filepath.Match(pattern, ""); err != nil {
+		return nil, err
+	}
+	if !globHasMeta(pattern) {
+		if _, err := Lstat(pattern); err != nil {
+			return nil, nil
+		}
+		return []string{pattern}, nil
+	}
+	dir, file := filepath.Split(pattern)
+	switch dir {
+	case "":
+		dir = "."
+	case "/":
+	default:
+		dir = dir[:len(dir)-1] // chop off trailing separator
+	}
+	if !globHasMeta(dir) {
+		return globIn(dir, file, nil)
+	}
+	if dir == pattern {
+		return nil, filepath.ErrBadPattern
+	}
+	m, err := globDepth(dir, depth+1)
+	if err != nil {
+		return nil, err
+	}
+	var matches []string
+	for _, d := range m {
+		matches, err = globIn(d, file, matches)
+		if err != nil {
+			return nil, err
+		}
+	}
+	return matches, nil
+}
+
+func globIn(dir, pattern string, matches []string) ([]string, error) {
+	fi, err := Stat(dir)
+	if err != nil || !fi.IsDir() {
+		return matches, nil
+	}
+	ents, err := ReadDir(dir)
+	if err != nil {
+		return matches, nil
+	}
+	for _, e := range ents {
+		ok, err := filepath.Match(pattern, e.Name())
+		if err != nil {
+			return matches, err
+		}
+		if ok {
+			matches = append(matches, filepath.Join(dir, e.Name()))
+		}
+	}
+	return matches, nil
+}
